@@ -603,6 +603,9 @@ func (f *Frame) writeOnceBoxes() []*ssa.Alloc {
 				stores++
 			case *ssa.DebugRef:
 			case *ssa.MakeClosure:
+				if allowStores == 0 {
+					return false // a captured variable captured again: not followed further
+				}
 			default:
 				return false
 			}
